@@ -64,6 +64,16 @@ pub const MODES: [RoundMode; 9] = [
     RoundMode::HalfEven,
 ];
 pub const INCS: [i64; 11] = [i64::MIN, -1, 0, 1, 2, 7, 24, 25, 60, 1000, i64::MAX];
+/// the richer increment pool of the `round((unit, increment))` entries: the
+/// largest legal increment of every unit and its neighbours, divisors of a
+/// civil day in every unit (legal for Timestamp / SignedDuration / Offset),
+/// and powers of two around the integer widths
+pub const INCS2: [i64; 48] = [
+    i64::MIN, -1, 0, 1, 2, 3, 4, 5, 6, 7, 8, 10, 12, 13, 15, 20, 23, 24, 25, 30, 31, 59, 60, 61, 100, 500, 999, 1000, 1001,
+    3_600, 43_200, 86_400, 86_401, 1_000_000, 43_200_000, 86_400_000, 1_000_000_000, 86_400_000_000, 43_200_000_000_000,
+    86_400_000_000_000, 86_400_000_000_001, 2_147_483_647, 2_147_483_648, 4_294_967_296, 9_223_372_036_854_775, 9_223_372_036_854_776,
+    i64::MAX - 1, i64::MAX,
+];
 pub const WEEKDAYS: [Weekday; 7] = [
     Weekday::Monday,
     Weekday::Tuesday,
@@ -153,6 +163,8 @@ pub struct Pools {
     pub tss_s: P<Timestamp>,
     pub zones: P<TimeZone>,
     pub zone_names: P<String>,
+    /// every zone of the bundled database
+    pub all_zones: P<TimeZone>,
     pub zoneds: P<Zoned>,
     pub zoneds_m: P<Zoned>,
     pub zoneds_s: P<Zoned>,
@@ -244,6 +256,11 @@ pub fn build(quick: bool) -> Pools {
         999_999_999,
         1_000_000_000,
         1_000_000_001,
+        -1_000_000_001,
+        999_999_998,
+        1_999_999_999,
+        2_000_000_000,
+        -2_000_000_000,
         -93_600,
         -93_599,
         93_599,
@@ -286,6 +303,9 @@ pub fn build(quick: bool) -> Pools {
         1000,
         2_562_047, // i64::MAX ns in hours
         9_223_372_036, // i64::MAX ns in seconds
+        i64::MAX / 3_600, // SignedDuration::from_hours limit
+        i64::MAX / 60,    // SignedDuration::from_mins limit
+        i64::MAX / 1_000, // whole seconds of i64::MAX milliseconds
     ] {
         around(&mut i64s, l);
     }
@@ -644,6 +664,14 @@ pub fn build(quick: bool) -> Pools {
         sd(-9_223_372_036, -854_775_809),
         sd(253_402_207_200, 999_999_999),
         sd(-377_705_023_201, 0),
+        // one step outside the Timestamp range, the last instant of a civil day
+        sd(253_402_207_201, 0),
+        sd(-377_705_023_201, -1),
+        sd(-377_705_023_202, 0),
+        sd(86_399, 999_999_999),
+        sd(-86_399, -999_999_999),
+        sd(i64::MAX, 1),
+        sd(i64::MIN, -1),
     ];
     let udurs: Vec<Duration> = vec![
         Duration::MAX,
@@ -661,6 +689,13 @@ pub fn build(quick: bool) -> Pools {
         Duration::new(9_223_372_036, 854_775_808),
         Duration::new(i64::MAX as u64, 999_999_999),
         Duration::new(i64::MAX as u64 + 1, 0),
+        // |i64::MIN| seconds is the one magnitude that only exists negated
+        Duration::new(i64::MAX as u64 + 1, 1),
+        Duration::new(i64::MAX as u64 + 1, 999_999_999),
+        Duration::new(i64::MAX as u64 + 2, 0),
+        Duration::new(u64::MAX, 0),
+        Duration::new(86_399, 999_999_999),
+        Duration::new(253_402_207_201, 0),
     ];
     let mut durs: Vec<(String, Dur)> = vec![];
     for (l, s) in &spans {
@@ -747,6 +782,11 @@ pub fn build(quick: bool) -> Pools {
         tss_s: p(tss_s, ts_label),
         zones: P(Arc::new(zones_v.iter().map(|z| (z.0.clone(), z.1.clone())).collect())),
         zone_names: pd(zone_names),
+        all_zones: {
+            let mut names: Vec<&str> = jiff_tzdb::available().collect();
+            names.sort();
+            P(Arc::new(names.into_iter().filter_map(|n| TimeZone::get(n).ok().map(|tz| (n.to_string(), tz))).collect()))
+        },
         zoneds: p(zoneds_v, zoned_label),
         zoneds_m: p(zoneds_m, zoned_label),
         zoneds_s: p(zoneds_s, zoned_label),
